@@ -44,3 +44,11 @@ def run(ctx):
     ctx.add_bounded("loaded grids and cluster aggregation vs the reference (shared with C17)", "9 table scenarios x row orders x separators x densities x 3 cluster-file layouts", r2["cases"], r2["cases"], not probs)
     for p in probs[:5]:
         ctx.fail("C05.bounded.loader[%s]" % p[:90], p, {"problem": p}, True)
+    r3 = L.run_large_precision((1e4, 1e8, 1e13))
+    bad = [x for x in r3 if x["defect"] > 1e-4 or not x["finite"]]
+    ctx.add_bounded("beta-binomial grid summed over all alternate counts for growing precision", "depth 50, copy number (2,1,2), tumour content 0.8, precision in {1e4, 1e8, 1e13}; tolerance 1e-4",
+                    len(r3), len(r3), not bad, "precision 1e13: recorded finding K04")
+    for x in bad:
+        ctx.fail("C05.bounded.large-precision|precision=%g|depth=%d" % (x["precision"], x["depth"]),
+                 "the beta-binomial grid summed over all alternate counts is %s, not one (precision %g, depth %d)" % (x["sums"], x["precision"], x["depth"]),
+                 dict(x, replay="bounded.loader.run_large_precision((%g,))" % x["precision"]), True)
